@@ -210,7 +210,7 @@ PROPS = {
         gen_anchored=False,
         exhaustive_quick=True, exhaustive_thorough=True,
         stages=[dict(test="TestC07Enum", kind="enum", quick=1, thorough=1, timeout_thorough=3600), dict(test="TestC07", kind="rapid", quick=48000, thorough=800000, timeout_thorough=5400),
-                dict(test="FuzzC07", kind="fuzz", quick=0, thorough=120, timeout_thorough=900)],
+                dict(test="FuzzC07", kind="fuzz", quick=0, thorough=120, timeout_thorough=900, bin="props.fuzz.test")],
         replay="TestReplayC07",
         rule="(S1, exhaustive, seed independent) all sequences of width-w levels of length <= 16/9/6/5 (quick) or <= 18/10/7/6 (thorough) for w = 1/2/3/4: encoder output strictly decoded "
              "== input, library decode(encode) == input (+ < 8 padding, consumed = 4+len), library decoder on the all-bit-packed and on the maximal-RLE foreign encoding, every 7th also "
@@ -228,7 +228,7 @@ PROPS = {
                    "Layout limits of the documented subset are respected: v1 data pages, PLAIN, chunks contiguous from byte 4 in schema order.",
         fixtures=["flat24", "nest", "tiny", "rep3"],
         gen_anchored=True,
-        stages=[dict(test="TestC04", kind="rapid", quick=2400, thorough=48000), dict(test="FuzzC04", kind="fuzz", quick=0, thorough=120, timeout_thorough=900),
+        stages=[dict(test="TestC04", kind="rapid", quick=2400, thorough=48000), dict(test="FuzzC04", kind="fuzz", quick=0, thorough=120, timeout_thorough=900, bin="props.fuzz.test"),
                 dict(test="TestC04FooterSweep", kind="enum", quick=1, thorough=1)],
         replay="TestReplayC04",
         rule="rapid: 1..3 row groups of 1..120 records on flat24/nest/tiny (lists up to 700 so that pages exceed 504 entries), written by pqref.WriteFile with, per column chunk: "
@@ -248,7 +248,7 @@ PROPS = {
                    "rejection must come from metadata. The unmodified base file must read correctly, otherwise the case is discarded and counted.",
         fixtures=["flat24", "nest"],
         gen_anchored=True,
-        stages=[dict(test="TestC18", kind="rapid", quick=3200, thorough=64000), dict(test="FuzzC18", kind="fuzz", quick=0, thorough=120, timeout_thorough=900)],
+        stages=[dict(test="TestC18", kind="rapid", quick=3200, thorough=64000), dict(test="FuzzC18", kind="fuzz", quick=0, thorough=120, timeout_thorough=900, bin="props.fuzz.test")],
         replay="TestReplayC18",
         rule="rapid: 1..3 row groups of 1..50 records on flat24/nest, conservative base encoding with drawn page splits and codec; one injection of kind in {dict-plain, dict-rle, index-page, "
              "v2, enc-bss (float/double), enc-rle-bool, enc-delta-binary (ints), enc-delta-length, enc-delta-bytearray (strings), lvl-bitpacked-def, lvl-bitpacked-rep (columns with such levels), "
@@ -326,6 +326,10 @@ def prepare(D, pid, cfg, W, race=False, tier="quick", replay=None):
         pkgs.extend(extra or [])
     W.write_imports(pkgs)
     ok, log = W.build_tests(race=race)
+    if ok and tier == "thorough" and any(st.get("kind") == "fuzz" for st in cfg.get("stages", [])):
+        ok3, log3 = W.build_tests(name="props.fuzz.test", fuzz=True)
+        if not ok3:
+            raise D.Infra("fuzz-instrumented test binary does not build:\n" + log3[-3000:])
     if ok and cfg.get("race_bin"):
         ok2, log2 = W.build_tests(race=True, name="props.race.test")
         if not ok2:
